@@ -1442,15 +1442,29 @@ def check_one(ctx, rep, case):
     if case['sched'].get('seed') is not None and (d or True):
         rcase = explicit(case, obs)
     if d:
-        rep.violate(rcase, d)
+        # the scheduler is deterministic: a genuine failure reproduces when the explicit schedule is run again; what does
+        # not reproduce (a thread start-up or watchdog timing effect of a loaded machine) is counted, not reported
+        obs2 = impl(rcase)
+        d2 = None if obs2.get('harness_error') else direct(rcase, obs2)
+        if d2:
+            rep.violate(rcase, d)
+        else:
+            rep.count('violations_not_reproduced')
     if ctx.model is not None:
-        try:
-            mobs = model_replay(ctx.model, case, obs)
-            diff = compare(case, obs, mobs)
-        except Exception as e:
-            diff = 'model replay failed: %r' % (e,)
-            from .modelproc import Model
-            ctx.model = Model()
+        def conf(o):
+            try:
+                return compare(case, o, model_replay(ctx.model, case, o))
+            except Exception as e:
+                from .modelproc import Model
+                ctx.model = Model()
+                return 'model replay failed: %r' % (e,)
+        diff = conf(obs)
+        if diff:
+            obs2 = impl(rcase)
+            diff2 = 'harness error' if obs2.get('harness_error') else conf(obs2)
+            if not diff2:
+                rep.count('disagreements_not_reproduced')
+                diff = None
         if diff:
             rep.disagree(rcase, dict(events=len(obs['events']), final=obs['final']), None, diff)
             rep.count('disagreements')
